@@ -128,6 +128,9 @@ HOSTILE = [
     mk("f", ["utf16", "windash"], S("-a")), mk("f", ["utf16", "expand"], S("%a%")), mk("f", ["wide", "windash"], S("中")),
     mk("f", ["wide"], S("a\u2013")), mk("f", ["wide"], S("aé")), mk("f", ["windash", "base64offset"], S("-a")),
     mk("f", ["base64offset", "contains"], S("ab")), mk("f", ["windash", "all"], {"list": [S("-a"), S("-b")]}),
+    mk("f", ["re", "i", "expand"], S("a%x%")), mk("f", ["re", "expand", "i"], S("a%x%")), mk("f", ["re", "i", "m", "s", "expand"], S("a%x%")),
+    mk("f", ["re", "i", "expand", "m"], S("a%x%")), mk("f", ["re", "i", "contains", "expand"], S("a%x%")),
+    mk("f", ["re", "s", "startswith", "expand", "endswith"], S("a%x%")), mk("f", ["re", "m", "expand", "contains"], S("%x%")),
     mk("f", ["re", "i", "m", "s"], S("a")), mk("f", ["re", "i", "i"], S("a")), mk("f", ["re", "cased"], S("a")),
     mk("f", ["re"], S("a\\*b*")), mk("f", ["re", "contains"], S("^a$")), mk("f", ["re", "contains"], S(".*a.*")),
     mk("f", ["re", "contains"], S("a\\.*")), mk("f", ["re", "contains"], S("a\\$")), mk("f", ["re", "expand", "contains"], S("\\%a%")),
@@ -183,6 +186,32 @@ def gen_item(tier, rng):
         vals3 = [S("-a%x%*"), S("a"), I(7), F(1.5), B(True), {"list": [S("\\%-b"), S("c?")]}]
         for ch in itertools.product(MODS, repeat=3):
             out.append(mk("f", ch, vals3[rng.randrange(len(vals3))]))
+    # (2b) typed streams: every order of type-changing modifiers mixed with expand / contains / startswith /
+    # endswith, on values of the type they apply to.  Regular expressions: all chains of 1..3 modifiers after
+    # 're' over the flags, expand, the wildcard adders and all/neq, on valid patterns (so that the flag set and
+    # the pattern are observed at every position of i/m/s relative to expand/contains/...)
+    re_mods = ["i", "m", "s", "ignorecase", "expand", "contains", "startswith", "endswith", "all", "neq"]
+    re_vals = [S("a%x%"), S("^a.*$"), S("a\\%b%c%"), S(".*x-y"), S(""), S("a?%u%$"), S("\\%a%b"), S("%a% *"),
+               {"list": [S("a%x%"), S("b")]}]
+    for n in (1, 2, 3):
+        for ch in itertools.product(re_mods, repeat=n):
+            k = (3 if n < 3 else 1) if quick else (len(re_vals) if n < 3 else 3)
+            for v in rng.sample(re_vals, k):
+                out.append(mk("f", ("re",) + ch, v))
+    for _ in range(150 if quick else 3000):
+        out.append(mk("f", ["re"] + [rng.choice(re_mods) for _ in range(4)], rng.choice(re_vals)))
+    str_mods = ["cased", "expand", "contains", "startswith", "endswith", "windash", "fieldref", "all"]
+    str_vals = [S("-a%x%"), S("a\\%b%c -d"), S("*a/b%u%*"), S("A"), {"list": [S("%x%-y"), S("-z*")]}]
+    for n in (2, 3):
+        for ch in itertools.product(str_mods, repeat=n):
+            for v in rng.sample(str_vals, (1 if n == 3 else 2) if quick else (2 if n == 3 else len(str_vals))):
+                out.append(mk("f", ch, v))
+    num_mods = ["lt", "lte", "gt", "gte", "minute", "hour", "year", "all", "neq"]
+    num_vals = [I(7), F(61.5), F(-1.7), I(2 ** 40), {"list": [I(1), F(2.5)]}]
+    for n in (2, 3):
+        for ch in itertools.product(num_mods, repeat=n):
+            for v in rng.sample(num_vals, 1 if quick else 3):
+                out.append(mk("f", ch, v))
     # (3) random: biased towards admissible chains, lengths 1..4, random values, with / without field
     for _ in range(1500 if quick else 15000):
         v = rand_value(rng)
@@ -380,7 +409,7 @@ PROPERTY = Property(
     rule="SigmaDetectionItem.from_mapping(key, value): every modifier chain of length <= 2 over the 33-entry table on fixed values "
          "(quick: 3, thorough: 12 sampled values per chain out of 27), exhaustive strings over {a B * ? \\ % - / space e-acute en-dash} up to "
          "length 3 (thorough: plus length 4 over 8 of them) under windash and expand, up to 2 / 3 (plus . ^ $ +) under re, all length-3 chains (thorough), "
-         "random chains of length 1..4 (biased to admissible and uniform) on random strings up to 12 incl. non-ASCII word / non-word "
+         "typed streams: all chains of 1..3 modifiers after 're' over {i m s ignorecase expand contains startswith endswith all neq} on valid patterns, all chains of length 2..3 over {cased expand contains startswith endswith windash fieldref all} on strings and over the comparison / timestamp modifiers on numbers; random chains of length 1..4 (biased to admissible and uniform) on random strings up to 12 incl. non-ASCII word / non-word "
          "characters, ints, floats, bools, null, lists up to 3, unsupported types; hostile list from DESIGN section 7. "
          "non-trivial = at least one modifier and a string with a special character, or a chain of length >= 2",
     assumptions=[
